@@ -147,6 +147,7 @@ class Prov:
         self.origin_fields = set()   # (adt, field) treated as leaves; filled by rules
         self.escape_memo = {}
         self.param_memo = {}
+        self.guard_memo = {}
         self.escape_fns = {}         # fnkey -> inlined result term of fns recognised as identifier escapes
         self.unknowns = []
 
@@ -277,17 +278,9 @@ class Prov:
             self.stack.pop()
 
     def _has_rec(self, t):
-        if not isinstance(t, tuple):
-            return False
-        if t and t[0] == 'rec':
-            return True
-        for x in t:
-            if isinstance(x, tuple) and self._has_rec(x):
+        for s_ in subterms(t):
+            if s_[0] == 'rec':
                 return True
-            if isinstance(x, frozenset):
-                for y in x:
-                    if self._has_rec(y):
-                        return True
         return False
 
     def eval_src(self, fn, s, env, d):
@@ -302,7 +295,9 @@ class Prov:
         if kind == 'cparam':
             return self.closure_param(fn, s[1], s[2], env, d)
         if kind == 'mut':
-            return self.eval(fn, s[2], env, d)
+            return self.guarded_local(fn, s[3], self.eval(fn, s[2], env, d), env, d)
+        if kind == 'assign':
+            return self.guarded_local(fn, s[2], self.eval(fn, s[1], env, d), env, d)
         if kind == 'uninit':
             return ('absent',)
         return ('unknown', 'src:' + str(kind))
@@ -380,18 +375,41 @@ class Prov:
             return ('unknown', 'closure-param-of-call')
         return ('unknown', 'closure-param')
 
-    def guarded(self, fn, node, value, d):
-        """wrap `value` with the path conditions under which `node` (in fn) executes"""
-        pcs = path_conds(fn, node)
-        for pc in reversed(pcs):
+    def guard_terms(self, fn, node, env, d):
+        """[(kind, cond term, label)] for the path conditions of node, evaluated in env (memoised)"""
+        key = (fn.key, id(node), self.envid(env) if env else 0)
+        r = self.guard_memo.get(key)
+        if r is not None:
+            return r
+        out = []
+        for pc in path_conds(fn, node):
             if pc[0] == 'if':
-                c = self.eval(fn, pc[1], {}, d)
+                c = self.eval(fn, pc[1], env, d)
                 if c == ('const', True) or c[0] == 'unknown':
                     continue
-                value = ('if', c, value, ('absent',)) if pc[2] else ('if', c, ('absent',), value)
+                out.append(('if', c, pc[2]))
             elif pc[0] == 'match':
-                sc = self.eval(fn, pc[1], {}, d)
-                value = ('match', sc, ((pc[2], value),))
+                out.append(('match', self.eval(fn, pc[1], env, d), pc[2]))
+        if not any(self._has_rec(c[1]) for c in out):
+            self.guard_memo[key] = out
+        return out
+
+    def guarded(self, fn, node, value, d):
+        """wrap `value` with the path conditions under which `node` (in fn) executes"""
+        for g in reversed(self.guard_terms(fn, node, {}, d)):
+            if g[0] == 'if':
+                value = ('if', g[1], value, ('absent',)) if g[2] else ('if', g[1], ('absent',), value)
+            else:
+                value = ('match', g[1], ((g[2], value),))
+        return value
+
+    def guarded_local(self, fn, node, value, env, d):
+        """like guarded(), for a mutation/assignment of a local: only conditions *inside* the fn, evaluated in env"""
+        for g in reversed(self.guard_terms(fn, node, env, d)):
+            if g[0] == 'if':
+                value = ('if', g[1], value, ('absent',)) if g[2] else ('if', g[1], ('absent',), value)
+            else:
+                value = ('match', g[1], ((g[2], value),))
         return value
 
     # ---- projections -------------------------------------------------------------------------
@@ -1004,6 +1022,9 @@ def path_conds(fn, node, stop=None):
         elif k == 'block' and role == 'expr':
             for st in reversed(parent['stmts']):
                 out.extend(reversed(guards_of_stmt(st)))
+        elif k == 'binary' and role == 'r' and parent.get('op') in ('&&', '||'):
+            # short-circuit: the right operand runs only if the left one is true (&&) / false (||)
+            out.append(('if', parent['l'], parent['op'] == '&&'))
     out.reverse()
     return out
 
@@ -1074,22 +1095,25 @@ def fmt_string(text):
 # ------------------------------------------------------------------------------------------------
 
 def subterms(t, seen=None):
-    if seen is None:
-        seen = set()
-    if not isinstance(t, tuple) or not t or id(t) in seen:
-        return
-    if not isinstance(t[0], str):
-        for x in t:
-            if isinstance(x, tuple):
-                yield from subterms(x)
-        return
-    yield t
-    for x in t:
-        if isinstance(x, tuple):
-            yield from subterms(x)
-        elif isinstance(x, frozenset):
-            for y in x:
-                yield from subterms(y)
+    """every distinct sub-term object of t (DAG-aware: shared sub-objects are visited once)"""
+    seen = set()
+    stack = [t]
+    while stack:
+        x = stack.pop()
+        if isinstance(x, frozenset):
+            stack.extend(x)
+            continue
+        if not isinstance(x, tuple) or not x:
+            continue
+        i = id(x)
+        if i in seen:
+            continue
+        seen.add(i)
+        if isinstance(x[0], str):
+            yield x
+        for y in x:
+            if isinstance(y, (tuple, frozenset)):
+                stack.append(y)
 
 
 def leaves(t, conds=()):
